@@ -53,7 +53,9 @@ pub fn run_case(id: usize, input: &Value) {
     let stream = compress(&enc, level, &body).unwrap_or_else(|| compress("gzip", level, &body).unwrap());
     let cuts: Vec<usize> = input["cuts"].as_array().unwrap().iter().map(|x| x.as_u64().unwrap() as usize).collect();
     let chunks = c03::split(&stream, &cuts);
-    let mut headers: Vec<Header> = vec![Header { name: hname.clone(), value: enc_sent.clone() }];
+    let mut headers: Vec<Header> = Vec::new();
+    if let Some(first) = input["enc_first"].as_str() { headers.push(Header { name: "Content-Encoding".into(), value: first.to_string() }); }
+    headers.push(Header { name: hname.clone(), value: enc_sent.clone() });
     let mut plain_headers: Vec<Header> = vec![];
     if let Some(ct) = input["ct"].as_str() { headers.push(Header { name: "Content-Type".into(), value: ct.into() }); plain_headers.push(Header { name: "Content-Type".into(), value: ct.into() }); }
     let ctok = match input["ct"].as_str() { None => true, Some(ct) => ct.to_lowercase().contains("text/html") };
@@ -80,6 +82,7 @@ pub fn run_case(id: usize, input: &Value) {
     let mut tags: Vec<String> = vec![format!("enc:{}", enc), format!("level:{}", level), format!("nparts:{}", chunks.len().min(9))];
     if enc_sent != enc { tags.push("enc-uppercase".into()); }
     if hname != "Content-Encoding" { tags.push("header-name-case".into()); }
+    if input["enc_first"].is_string() { tags.push("two-content-encoding-headers".into()); }
     if body.is_empty() { tags.push("empty-body".into()); }
     if body.len() > 40000 { tags.push("big-body".into()); }
     if passthrough { tags.push("passthrough".into()); }
@@ -129,7 +132,8 @@ pub fn generate(seed: u64, thorough: bool) -> Vec<Value> {
                 _ => { let n = 1 + rng.below(6); let mut v: Vec<usize> = (0..n).map(|_| rng.below(slen + 1)).collect(); v.sort(); v }
             };
             let ct = if rng.chance(1, 10) { json!("text/plain") } else if rng.chance(1, 3) { json!("text/html; charset=utf-8") } else { Value::Null };
-            out.push(json!({"body": body.iter().map(|x| json!(*x)).collect::<Vec<_>>(), "enc": enc, "hname": hname, "level": level, "cuts": cuts, "ct": ct, "filters": filters}));
+            let enc_first: Value = if rng.chance(1, 6) { json!(*rng.pick(&["identity", "zstd", "gzip", "br", "deflate"])) } else { Value::Null };
+            out.push(json!({"body": body.iter().map(|x| json!(*x)).collect::<Vec<_>>(), "enc": enc, "enc_first": enc_first, "hname": hname, "level": level, "cuts": cuts, "ct": ct, "filters": filters}));
         }
     }
     out
